@@ -386,6 +386,22 @@ class MapDecoder:
             cls = frozenset(state.get(e["bb"], set()))
             self.table.setdefault(cls, []).append((f, e))
 
+    def skipped_entries(self):
+        """blocks from which the loop goes on to the next entry although the current one was neither stored nor rejected:
+        a path from the label decoding to a back edge that passes no write to the result (an inner loop that writes counts as
+        a write - it may run zero times, that is the entry's business).  [] when every continuing iteration has dispatched."""
+        fn = self.fn
+        cfg = fn.cfg
+        header, body = self.loop
+        writes = {e["bb"] for _, e in self.field_effects() if e["bb"] in body}
+        for h, b in cfg.loops():
+            if h != header and h in body and b & writes:
+                writes.add(h)
+        start = fn.blocks[self.label_bb]["term"]["target"]
+        from .guards import reach_tracking_failures
+        seen = reach_tracking_failures(fn, start, writes | {header})
+        return sorted(x for x in seen if x in body and header in cfg.succ[x])
+
     def classes_at(self, bb):
         return frozenset(self.classes.get(bb, set()))
 
